@@ -175,6 +175,73 @@ def run(ctx):
             ctx.ob('T15.neg', mem.fq, 'a negative `%s` is brought into range by adding a length (a `%s < 0` test whose branch does so)'
                    % (pn, pn), bool(fixes), loc=loc(mem, tests[0]) if tests else mem.loc,
                    detail='%d test(s) `%s < 0`, %d with the addition' % (len(tests), pn, len(fixes)))
+    # T25.raw: the slot list holds the tombstone marker in removed-but-not-compacted slots; whoever enumerates it raw filters
+    # the marker out (or has just rebuilt it tombstone-free with `item_list[:] = ...`), as __iter__/__reversed__ do
+    n_raw = 0
+    for nm, mem in ci.members.items():
+        if not isinstance(mem, FuncInfo):
+            continue
+        aliases = {'self.item_list'}
+        for n in ast.walk(mem.node):
+            if isinstance(n, ast.Assign) and len(n.targets) == 1:
+                tg, vv = n.targets[0], n.value
+                if isinstance(tg, ast.Name) and txt(vv) == 'self.item_list':
+                    aliases.add(tg.id)
+                elif isinstance(tg, ast.Tuple) and isinstance(vv, ast.Tuple) and len(tg.elts) == len(vv.elts):
+                    for a, b in zip(tg.elts, vv.elts):
+                        if isinstance(a, ast.Name) and txt(b) == 'self.item_list':
+                            aliases.add(a.id)
+        rebuilt = [n.lineno for n in ast.walk(mem.node) if isinstance(n, ast.Assign) and any(
+            isinstance(t, ast.Subscript) and isinstance(t.slice, ast.Slice) and txt(t.value) in aliases for t in n.targets)]
+        loops = [(n.iter, n.target, n.body, n) for n in ast.walk(mem.node) if isinstance(n, ast.For)]
+        for n in ast.walk(mem.node):
+            if isinstance(n, (ast.ListComp, ast.SetComp, ast.GeneratorExp, ast.DictComp)):
+                for g in n.generators:
+                    loops.append((g.iter, g.target, list(g.ifs) + ([n.elt] if hasattr(n, 'elt') else [n.key, n.value]), g))
+        for it, tg, body, node in loops:
+            pos = 0
+            while isinstance(it, ast.Call) and call_name(it) in ('enumerate', 'reversed', 'iter', 'list', 'tuple') and it.args:
+                if call_name(it) == 'enumerate':
+                    pos = 1
+                it = it.args[0]
+            if txt(it) not in aliases:
+                continue
+            n_raw += 1
+            var = tg.elts[pos] if pos and isinstance(tg, ast.Tuple) and len(tg.elts) > pos else tg
+            filt = any(isinstance(c, ast.Compare) and len(c.ops) == 1 and isinstance(c.ops[0], (ast.Is, ast.IsNot)) and
+                       {txt(c.left), txt(c.comparators[0])} == {txt(var), '_MISSING'} for b in body for c in ast.walk(b))
+            ok = filt or any(ln < getattr(node, 'lineno', it.lineno) for ln in rebuilt)
+            ctx.ob('T25.raw', mem.fq, 'a raw enumeration of the slot list filters the tombstone marker (or follows a rebuild of the list)',
+                   ok, loc=loc(mem, it), detail='for %s in %s' % (txt(tg), txt(it)))
+    if n_raw == 0:
+        ctx.unknown('T25.raw', CLS, 'no raw enumeration of item_list found (not even in __iter__)', ci.module.relpath)
+    # T15.negpath: pop(index) tombstones a slot; on every path that does, the position was tested for being negative first
+    # (a fast path that hands a negative position through unchanged records the tombstone interval at a negative slot)
+    pp = prog.func(CLS + '.pop')
+    if 'index' not in pp.params:
+        raise AnalysisError('anchor vanished: parameter index of IndexedSet.pop')
+
+    class PosInl(Quiet):
+        def inline(self, walker, op, callee, st):
+            return callee.name.startswith('_') and not callee.name.startswith('__') and isinstance(op.recv_val, ast.Name) and \
+                op.recv_val.id == 'self' and any('index' in {x.id for x in ast.walk(walker.expand(a)) if isinstance(x, ast.Name)}
+                                                 for a in op.val.args)
+    w, paths = paths_of(prog, pp, recv=ci, model=PosInl(prog))
+    n_tomb = 0
+    for p in paths:
+        if p.kind != 'return':
+            continue
+        tomb = [o for o in p.ops if o.kind == 'sub_store' and txt(o.val.value) == 'self.item_list' and o.info is not None and
+                txt(w.expand(o.info)) == '_MISSING']
+        if not tomb:
+            continue
+        n_tomb += 1
+        neg = [x for t, truth, x in tests_on(w, p) if x.seq < tomb[0].seq and t.replace(' ', '') in ('index<0', '0>index', 'index>=0', '0<=index')]
+        ok = bool(neg)
+        ctx.ob('T15.negpath', pp.fq, 'on every path that tombstones a slot the position was tested for being negative before it was '
+               'turned into a real slot', ok, loc=loc(pp, tomb[0].node), path=p.describe() if not ok else None)
+    if n_tomb == 0:
+        ctx.unknown('T15.negpath', pp.fq, 'no tombstoning store (item_list[...] = _MISSING) found on the paths of pop', pp.loc)
     # no method reaches into another instance's slot list / index map / dead-interval table (sharing the inner mutable
     # interval lists or skipping the other object's own bookkeeping)
     foreign = []
